@@ -1,0 +1,17 @@
+//go:build verif
+
+package mqtt
+
+// This file is only compiled with the `verif` build tag. verifPoint marks a named schedule point
+// in the broker code. The verification harness may install VerifPointHook (before any broker
+// goroutine runs) to park the calling goroutine there until it is released, which lets a given
+// interleaving of the broker's goroutines be forced. With no hook installed a point does nothing.
+
+// VerifPointHook is called at every schedule point with the point's name.
+var VerifPointHook func(name string)
+
+func verifPoint(name string) {
+	if h := VerifPointHook; h != nil {
+		h(name)
+	}
+}
